@@ -253,6 +253,8 @@ func (q *qhDelivery) Commit(ctx context.Context) error {
 			note = q.t.commitNote(d)
 		}
 		q.t.event(fmt.Sprintf("%s:commit:%s:%d:%s", q.t.name, d.MsgID, d.Attempt, note))
+	} else {
+		q.t.event(fmt.Sprintf("%s:commit-failed:%s:%d", q.t.name, d.MsgID, d.Attempt))
 	}
 	return qhErr(c, "commit")
 }
